@@ -66,6 +66,7 @@ def gen_heap_consts():
     gt = strip_comments(rd("bytecode/src/heap/gc.rs"))
     if not re.search(r"self\.next_gc\s*=\s*\(self\.bytes_allocated \* Self::GC_GROWTH_FACTOR\)\s*\.max\(Self::INITIAL_GC_THRESHOLD\)", " ".join(gt.split()).replace(") .max", ").max")):
         raise ExtractError("Heap::sweep: next_gc = max(bytes * GC_GROWTH_FACTOR, INITIAL_GC_THRESHOLD) not found")
+    fsb = consts_of(rd("runtime/src/stdlib/fs.rs"), ["MAX_BUF"])
     # byte buffers (std.bytes): does every native that builds one consult the heap limit and charge it first?
     bt = strip_comments(rd("runtime/src/stdlib/bytes.rs"))
     def _native(name):
@@ -80,11 +81,18 @@ def gen_heap_consts():
         if pb < 0:
             raise ExtractError(f"{name}: `{build}` not found (the native changed shape)")
         charged.append(0 <= pc < pb)
+    # fs.read_bytes builds a byte buffer of the requested count: same rule
+    ft = strip_comments(rd("runtime/src/stdlib/fs.rs"))
+    fm = re.search(r"fn native_read_bytes\b.*?\n\}", ft, flags=re.S)
+    if not fm or "vec![0u8;" not in fm.group(0):
+        raise ExtractError("fs.rs native_read_bytes: `vec![0u8;` not found (the native changed shape)")
+    charged.insert(4, 0 <= fm.group(0).find("charge_byte_buffer(") < fm.group(0).find("vec![0u8;"))
     fr = _native("native_free")
     charged.append("release_byte_buffer(" in fr or not any(charged))
-    if any(charged[:4]) and not all(charged):
-        raise ExtractError("std.bytes: some natives charge their buffer to the heap limit and some do not: " + str(charged))
-    bytes_charged = all(charged[:4])
+    if any(charged[:5]) and not all(charged):
+        raise ExtractError("byte buffers (bytes.alloc / clone / from_string / resize, fs.read_bytes, bytes.free): some natives check and charge their buffer "
+                           "before building it and some do not: " + str(charged))
+    bytes_charged = all(charged[:5])
     import vlib
     ok, paths, log = vlib.harness_build(["hx_heaplimit"])
     if not ok:
@@ -115,7 +123,9 @@ def gen_heap_consts():
            "(* Heap::sweep: next_gc = max (factor * bytes) INITIAL_GC_THRESHOLD *)\n",
            f"Definition GC_GROWTH_FACTOR : N := {gcf['GC_GROWTH_FACTOR'][0]}%N.\n",
            "(* std.bytes: alloc / clone / from_string / resize call VM::charge_byte_buffer (limit check + charge) before they build the buffer, free releases *)\n",
-           f"Definition BYTES_CHARGED : bool := {'true' if bytes_charged else 'false'}.\n"]
+           f"Definition BYTES_CHARGED : bool := {'true' if bytes_charged else 'false'}.\n",
+           "(* fs.read_bytes: the module's own cap on the requested count *)\n",
+           f"Definition FS_MAX_BUF : N := {fsb['MAX_BUF'][0]}%N.\n"]
     return write_if_changed("HeapConsts.v", "".join(out))
 
 
